@@ -177,7 +177,7 @@ CLAIMED["C14"] = {
             "hypotheses and proved to be ignored; every run additionally replays a restart on the same hint cache "
             "(re-register with the cached hint, truthful rescan): a client must be notified iff the tx has >= N "
             "confirmations / the outpoint is spent on the final chain. 14 theorems.",
-    "note": "Per-request projection (request independence exercised, not proved). Hypotheses of the theorems: client "
+    "note": Hypotheses of the theorems: client "
             "hints <= actual height, truthful rescan answers, ConnectTip/NotifyHeight pairing, single inclusion per chain, "
             "reorg depth < safety limit, unwatched inclusions at or above the cached hint; model-predicted Go panics "
             "excluded. Trusted: Coq kernel, harness, python predicate. No axioms.",
@@ -704,5 +704,23 @@ _ADD3 = {
             ("technique", "+ deterministic interleaving enumeration at the store boundary with a linearisable-spec theorem")],
 }
 for _pid, _items in _ADD3.items():
+    for _field, _txt in _items:
+        CLAIMED[_pid][_field] += " " + _txt
+
+_ADD4 = {
+    "C14": [("text", "Request independence is PROVED for a multi-request model with the shared height indexes "
+                     "(C14_multi_conf_independent, C14_multi_spend_independent, C14_multi_*_reach) and the per-request theorems "
+                     "are lifted to every request of a multi-request run (C14_multi_conf_exact, _hint_safe, "
+                     "_reorg_before_reconf, spend counterparts; C14_multi_shared_bucket_reorg as non-vacuity). The real "
+                     "TxNotifier is tied to that model by whole-history correspondence on collision-forcing multi-request "
+                     "histories (seeded `multi`, enumerated `mcoll` family of 588 two-request reorg shapes; up to 4 conf and "
+                     "3 spend requests, several clients each)."),
+            ("note", "Within one global call the model runs the per-request body in a fixed order (Go's map order is "
+                     "random; only per-client event order is observable and compared); client-id freshness is per request in "
+                     "the model, global in the code."),
+            ("technique", "+ projection/simulation proof of request independence over shared index lists + "
+                          "collision-forcing multi-request generator")],
+}
+for _pid, _items in _ADD4.items():
     for _field, _txt in _items:
         CLAIMED[_pid][_field] += " " + _txt
